@@ -771,7 +771,12 @@ def rule_omp_order(ctx):
         # number of chunks = parallelism (C04: "a build split into c chunks uses at most c - 1 more [segments]", c = the number of
         # threads): proved when the bound is that variable, refuted by a witness when it evaluates to more
         if bound_t is not None:
-            if bound_t[0] == 'local' and bound_t[1] == 'parallelism':
+            # a never re-assigned copy of the variable (`const size_t chunks = parallelism;`) is the variable
+            bt_ = bound_t
+            for _ in range(4):
+                if bt_[0] == 'local' and bt_[1] != 'parallelism' and len(bt_) == 3 and f.single_def(bt_[2]):
+                    bt_ = nocast(strip_cast(f.term(f.single_def(bt_[2]), inline=False)))
+            if bt_[0] == 'local' and bt_[1] == 'parallelism':
                 obs.append(Ob('CHUNK-COUNT', f, fors[0], 'the data is cut into exactly `parallelism` chunks (each chunk border may cost one segment)', 'the parallel loop runs i < parallelism', OK, arm='count'))
             else:
                 wit = None
@@ -820,10 +825,11 @@ def rule_omp_order(ctx):
             if last_t[0] == 'cond' and (last_t[2] == N or last_t[3] == N):
                 ct = last_t[1] if last_t[2] == N else ('un', '!', last_t[1])
                 P = None
+                # the last iteration is i == B - 1 for the bound B of the parallel loop, whatever B is called
                 for s in subterms(ct):
-                    if s[0] == 'local' and s[1] == 'parallelism':
+                    if s[0] == 'local' and (s == bound_t if bound_t is not None else s[1] == 'parallelism'):
                         P = s
-                iv = [s for s in subterms(ct) if s[0] == 'local' and s[1] != 'parallelism']
+                iv = [s for s in subterms(ct) if s[0] == 'local' and s != P and (loop_name is None or s[1] == loop_name)]
                 if P is not None and iv:
                     try:
                         a1 = {frozenset(x.key() for x in g_) for g_ in form.cases(ct, True)}
@@ -836,7 +842,7 @@ def rule_omp_order(ctx):
                 okl = None
             elif proved:
                 okl = True
-                whyl += ' — equals n exactly for the last chunk (i == parallelism - 1)' + ('' if f.single_def(nocast(f.term(a[2], inline=False))[2]) else '; afterwards it only grows by guarded ++ while < n')
+                whyl += ' — equals n exactly for the last iteration of the parallel loop' + ('' if f.single_def(nocast(f.term(a[2], inline=False))[2]) else '; afterwards it only grows by guarded ++ while < n')
             else:
                 # refutation by witness: evaluate the expression for concrete (n, parallelism) at the last iteration of the loop
                 # (i = bound - 1, the bound of the parallel loop evaluated in the same environment; `parallelism` if it is that)
